@@ -331,6 +331,7 @@ pub fn make_knobs(profile: Profile, rng: &mut Rng, thorough: bool) -> Knobs {
         }
         Profile::TwoHop => {
             k.adaptive_pct = *rng.pick(&[0u64, 0, 40, 100]);
+            k.has_rewards = rng.chance(1, 2);
             k.n_pools = 3;
             k.n_lps = 3;
             k.spacing_choices = vec![1, 8, 64, 64, 128, 32768];
